@@ -38,7 +38,8 @@
 //	tres := lab.Teardown(true)                      // real Manager.TeardownEnvironment + leak check
 //	recs := lab.Records()                           // merged, sequence-numbered record stream
 //	occs := lab.Occurrences()                       // what was attempted, in order
-//	lab.Anomalies(), lab.GatedObservedOpen(), lab.TaskName("h3"), lab.Close()
+//	lab.LateNotify("t1")                            // real env.NotifyEvent(exit 0) between transitions
+//	lab.Anomalies(), lab.SpuriousTimeouts(), lab.GatedObservedOpen(), lab.TaskName("h3"), lab.Close()
 //
 // HookSpec: Name, Kind (Call|Task), Trigger, Await ("" = omitted), Timeout ("" =
 // DefaultTimeout), Critical (*bool, nil = omitted = documented default true),
@@ -84,6 +85,8 @@
 //	                          the occurrence could be waiting for is closed, and the driver goroutine
 //	                          sits in repository code (Msg = innermost repository function). The
 //	                          result carries Hang != ""; the lab must be abandoned (no Teardown)
+//	note                      something the lab did or saw that is neither (LateNotify; hook phase over
+//	                          before a termination was reported)
 //	anomaly                   the lab could not do what it wanted (watchdog); monitors report
 //	                          these as inconclusive, never as verdicts
 //
